@@ -943,6 +943,11 @@ func init() {
 			return true
 		},
 		"runtime.SetFinalizer": nop,
+		"fmt.Errorf": func(ex *Exec, st *State, args []Value, in *ssa.Call, pos token.Pos) bool {
+			ex.fresh++
+			setRes(st, in, IfaceV{T: types.Universe.Lookup("error").Type(), V: OpaqueV{"err:fmt.Errorf", ex.fresh}})
+			return true
+		},
 		"fmt.Fprintf": func(ex *Exec, st *State, args []Value, in *ssa.Call, pos token.Pos) bool {
 			// what matters of formatted output is which attacker-controlled strings reach it unescaped
 			u := st.outUnsafe
